@@ -26,9 +26,11 @@ P = {
   "judged on the real daemon for every order of events, service subset and timeout point the generator draws; timeout schedule points are driven "
   "through libevent's own callback.", "Lean 4 proofs about the acceptance gate + Spec judge on implementation traces + correspondence"),
  "C03": ("proto", True,
+  "Lean theorem C03_history: after every history of chunks and timer expiries no request still in the model's table satisfies the acceptance condition "
+  "(no unmet +!, data complete or hurry-up, no unanswered query or an expired timeout) - a ready client was decided in the step that made it ready. "
   "The Spec 'nobody who is ready is still waiting after a step' is decided on the real daemon's traces by the Lean judge (weight on replies after "
   "timeout, duplicate OKs, challenge replies, repeated passwords); Lean theorems show every state-changing handler of the model ends in the gate and "
-  "that an expired timeout permanently disables soft holds.", "Lean 4 proofs (gate completeness) + Spec judge on implementation traces + correspondence"),
+  "that an expired timeout permanently disables soft holds.", "Lean 4 proof that no reachable state holds a ready request + Spec judge on implementation traces + correspondence"),
  "C04": ("proto", True,
   "Lean theorems: a reply whose tag does not validate, or whose service is not awaited by that instance, leaves the model state unchanged and emits "
   "nothing (stray_noop), the tag reader never wraps modulo 2^32, and the tag written for an instance reads back as exactly that (id, serial) "
